@@ -66,7 +66,7 @@ VARIABLES
   startCh,         \* [k |-> empty|full, n, c]
   gunCalls, schedCalls,   \* calls of the gun / schedule factory so far
   stok,            \* tokens left on the shared RPS schedule
-  ipc,             \* [pool -> [inst -> none|create|check|acq|wait|shoot|exit|fin|done]]
+  ipc,             \* [pool -> [inst -> none|create|bind|check|acq|wait|shoot|exit|fin|done]]
   itok, ishots, icls,
   gun,             \* [pool -> [inst -> none|bound|closed]]
   closes,          \* [pool -> [inst -> number of Close calls]]
@@ -406,7 +406,13 @@ StartStep(p) == StartFirstNone(p) \/ StartFirstGo(p) \/ (\E o \in {"ok", "sched"
                 \/ StartLoop(p) \/ StartRet(p)
 
 \* runNewInstance in its own goroutine: a creation failure is that instance's run result
+\* With one asynchronous instance (MaxN = 2) the factory calls and Bind of a creation are one step.  With two or
+\* more (MaxN >= 3) their creations race: instance 1 may take gun-factory call 2 and instance 2 call 3, yet instance 2
+\* binds first - so the factory calls (GunCall, which fixes the call index) and the Bind (InstBind) are separate steps.
+SplitCreate == MaxN >= 3
+
 InstCreate(p, i, o) ==
+  /\ ~SplitCreate
   /\ ipc[p][i] = "create"
   /\ o = CreateOutcome(p, i)
   /\ CreateCounters(p, i)
@@ -419,6 +425,31 @@ InstCreate(p, i, o) ==
           /\ failed' = [failed EXCEPT ![p] = IF NotCtxValue(Cls(p, o)) THEN @ \cup {Cls(p, o)} ELSE @]
           /\ UNCHANGED gun
   /\ UNCHANGED <<plan, engVars, poolVars, ctxVars, provVars, aggVars, stVars, itok, ishots, icls, closes, stok, awVars>>
+
+\* newSchedule() and newGun() of an asynchronous instance
+GunCall(p, i) ==
+  /\ SplitCreate /\ ipc[p][i] = "create"
+  /\ CreateCounters(p, i)
+  /\ IF CreateOutcome(p, i) \in {"sched", "newgun"}
+     THEN /\ ipc' = [ipc EXCEPT ![p][i] = "done"]
+          /\ resBag' = [resBag EXCEPT ![p] = @ \cup {[id |-> i, c |-> Cls(p, CreateOutcome(p, i))]}]
+          /\ failed' = [failed EXCEPT ![p] = IF NotCtxValue(Cls(p, CreateOutcome(p, i))) THEN @ \cup {Cls(p, CreateOutcome(p, i))} ELSE @]
+     ELSE ipc' = [ipc EXCEPT ![p][i] = "bind"] /\ UNCHANGED <<resBag, failed>>
+  /\ UNCHANGED <<plan, engVars, poolVars, ctxVars, provVars, aggVars, stVars, itok, ishots, icls, gun, closes, stok, awVars>>
+
+\* gun.Bind() of an asynchronous instance
+InstBind(p, i, o) ==
+  /\ SplitCreate /\ ipc[p][i] = "bind"
+  /\ o = IF PP(p).bindFail = i THEN "bind" ELSE "ok"
+  /\ IF o = "ok"
+     THEN /\ ipc' = [ipc EXCEPT ![p][i] = "check"]
+          /\ gun' = [gun EXCEPT ![p][i] = "bound"]
+          /\ UNCHANGED <<resBag, failed>>
+     ELSE /\ ipc' = [ipc EXCEPT ![p][i] = "done"]
+          /\ resBag' = [resBag EXCEPT ![p] = @ \cup {[id |-> i, c |-> Cls(p, o)]}]
+          /\ failed' = [failed EXCEPT ![p] = IF NotCtxValue(Cls(p, o)) THEN @ \cup {Cls(p, o)} ELSE @]
+          /\ UNCHANGED gun
+  /\ UNCHANGED <<plan, engVars, poolVars, ctxVars, provVars, aggVars, stVars, facVars, itok, ishots, icls, closes, stok, awVars>>
 
 (* ======================================================================= *)
 (* instance.Run                                                            *)
@@ -498,6 +529,7 @@ InstFinish(p, i) ==
 
 InstSilent(p, i) == InstCheck(p, i) \/ InstExit(p, i) \/ InstAcquire(p, i) \/ InstWait(p, i)
 InstStep(p, i) == (\E o \in {"ok", "sched", "newgun", "bind"} : InstCreate(p, i, o))
+                  \/ GunCall(p, i) \/ (\E o \in {"ok", "bind"} : InstBind(p, i, o))
                   \/ InstSilent(p, i) \/ InstShoot(p, i) \/ InstFinish(p, i)
 
 (* ======================================================================= *)
